@@ -33,6 +33,13 @@ def parseOp (s : String) : Option Op :=
     -- the kind of request (payload / options) does not matter to the model: every copy is the clone of the call
     let d ← if dl = "-" then some none else dl.toNat?.map some
     some (.send (← id.toNat?) d)
+  -- sendf: the transport refuses the first transmission (judge: an ordinary request whose call returns; model: n/a)
+  | ["sendf", id, dl] => do
+    let d ← if dl = "-" then some none else dl.toNat?.map some
+    some (.send (← id.toNat?) d)
+  | ["sendf", id, dl, _kind] => do
+    let d ← if dl = "-" then some none else dl.toNat?.map some
+    some (.send (← id.toNat?) d)
   | ["sleep", d] => d.toNat?.map .sleep
   | ["tick", a] => a.toNat?.map .tick
   | ["ack", id] => id.toNat?.map .ack
@@ -96,6 +103,8 @@ def opOther (s : State) : Op → List String
   | _ => []
 
 def model (line : String) : String :=
+  -- a refused first transmission is outside the model (which has no failing writes): judged only
+  if (line.splitOn "sendf").length > 1 then "n/a" else
   match parseOps line with
   | some (.cfg a m n :: ops) =>
     let P : Params := ⟨a, m, n⟩
